@@ -244,6 +244,11 @@ func srefAlphabet(level int) []dbx.Txn {
 	add("R r1.tags+=x ; +=y", opMutate("R", uR[0], "tags", "insert", rm.SetOf(rm.S("x"))), opMutate("R", uR[0], "tags", "insert", rm.SetOf(rm.S("y"))))
 	add("R r1.tags:=[x,y] ; -=x ; +=z", opUpdate("R", uR[0], rm.Row{"tags": rm.SetOf(rm.S("x"), rm.S("y"))}), opMutate("R", uR[0], "tags", "delete", rm.SetOf(rm.S("x"))), opMutate("R", uR[0], "tags", "insert", rm.SetOf(rm.S("z"))))
 	add("R r1.tags-=y ; +=y ; cnt:=8", opMutate("R", uR[0], "tags", "delete", rm.SetOf(rm.S("y"))), opMutate("R", uR[0], "tags", "insert", rm.SetOf(rm.S("y"))), opUpdate("R", uR[0], rm.Row{"cnt": rm.SetOf(rm.I(8))}))
+	// read operations between and after the modifying ones (they add nothing to the accumulated update)
+	add("R r1.wset+=a2 ; select R", opMutate("R", uR[0], "wset", "insert", uset(n1[1])), rm.Op{Op: "select", Table: "R"})
+	add("R r1.wset+=a2 ; select N1 ; R r1.wset-=a1", opMutate("R", uR[0], "wset", "insert", uset(n1[1])), rm.Op{Op: "select", Table: "N1"}, opMutate("R", uR[0], "wset", "delete", uset(n1[0])))
+	add("R r1.smap insert k2:a2 ; wait ; cnt:=8", opMutate("R", uR[0], "smap", "insert", rm.MapOf(rm.S("k2"), rm.U(n1[1]))),
+		rm.Op{Op: "wait", Table: "R", Where: whereUUID(uR[0]), Until: "!=", Columns: []string{"name"}, Rows: []rm.Row{{"name": str("no such name")}}}, opUpdate("R", uR[0], rm.Row{"cnt": rm.SetOf(rm.I(8))}))
 	// unique values exchanged between two committed rows (every intermediate step duplicates a value, the final state does not)
 	add("ins PR p1,p2", opInsert("PR", uPR[0], rm.Row{"name": str("peer")}), opInsert("PR", uPR2, rm.Row{"name": str("peer2")}))
 	add("swap PR p1.name<->p2.name", opUpdate("PR", uPR[0], rm.Row{"name": str("peer2")}), opUpdate("PR", uPR2, rm.Row{"name": str("peer")}))
